@@ -442,7 +442,7 @@ func c02RandomChain(r *rand.Rand) []c02State {
 	n := 3 + r.IntN(3)
 	chain := []c02State{c02Base(r.IntN(2))}
 	defects := 0
-	for len(chain) < n {
+	for tries := 0; len(chain) < n && tries < 400; tries++ {
 		prev := chain[len(chain)-1]
 		if len(chain) >= 2 {
 			prev = c02Repair(prev, chain[len(chain)-2])
